@@ -29,6 +29,7 @@ import (
 	"github.com/youchainhq/go-youchain/trie"
 	"math/big"
 	"sync"
+	"sync/atomic"
 )
 
 type ValidatorReader interface {
@@ -189,7 +190,7 @@ func (st *StateDB) saveValidatorsIndex() error {
 	return err
 }
 
-// 	getValidatorsIndex return addresses of all validators
+// getValidatorsIndex return addresses of all validators
 func (st *StateDB) getValidatorsIndex() error {
 	var data []byte
 	data, err := st.readStakingData(common.Address{}, validatorIndexFlag)
@@ -397,6 +398,8 @@ func (st *StateDB) setValidator(val *Validator) {
 	mainAddress := val.MainAddress()
 	st.validatorObjects.Store(mainAddress, val)
 	st.validatorIndex.Add(mainAddress)
+	// the sorted set caches the record objects: drop it with every change of the live records
+	st.validatorsSorted = atomic.Value{}
 }
 
 func (st *StateDB) CreateValidator(name string, operator, coinbase common.Address, role params.ValidatorRole, mainPubKey, blsPubKey hexutil.Bytes, token, stake *big.Int, acceptDelegation, commissionRate, riskObligation uint16, status uint8) (newVal *Validator) {
